@@ -59,6 +59,14 @@ func invalidFrames(server bool, fragmented bool, r *rng) []rframe {
 	o = append(o, rframe{gframe{true, 1, ws.OpPong, nil}, m})                 // RSV3 on control
 	o = append(o, rframe{gframe{true, 0, ws.OpText, []byte("hi")}, !m})       // wrong masking
 	o = append(o, rframe{gframe{true, 0, ws.OpPing, []byte("p")}, !m})        // wrong masking on control
+	// the masking rule does not depend on there being a payload
+	o = append(o, rframe{gframe{true, 0, ws.OpPing, nil}, !m})
+	if fragmented {
+		o = append(o, rframe{gframe{true, 0, ws.OpContinuation, nil}, !m}) // empty final fragment, wrong masking
+	} else {
+		o = append(o, rframe{gframe{true, 0, ws.OpText, nil}, !m})
+		o = append(o, rframe{gframe{false, 0, ws.OpBinary, nil}, !m})
+	}
 	if fragmented {
 		o = append(o, rframe{gframe{true, 0, ws.OpText, []byte("new")}, m})   // new data frame while fragmented
 		o = append(o, rframe{gframe{false, 0, ws.OpBinary, []byte("new")}, m})
